@@ -9,6 +9,7 @@ the same class and carry the same attributes; the dictionary handed to the
 decoder must be unchanged.
 """
 import ast
+import re
 
 from ..nf import Rat, C
 from ..source import Unsupported, AnchorError, Module
@@ -382,13 +383,15 @@ def check(run, repo):
         run.ok('TABLE.registry', label)
         diffs = []
         differences(obj, dec, label, diffs)
-        # one finding per (class, attribute): nested occurrences of the same defect collapse
+        # one finding per (class, attribute, what happened to the value): nested occurrences of the same defect
+        # collapse, a different defect at the same attribute does not
         seen = set()
         for cname, attr, dmsg in diffs:
-            if (cname, attr) in seen:
+            what = re.sub(r'#\d+', '', dmsg.split(': ', 1)[-1])
+            if (cname, attr, what) in seen:
                 continue
-            seen.add((cname, attr))
-            run.fail('TABLE.roundtrip', cname, 'attr:' + attr, 'after encode/decode ' + dmsg, mod_td, fn_td)
+            seen.add((cname, attr, what))
+            run.fail('TABLE.roundtrip', cname, 'attr:' + attr, 'after encode/decode ' + dmsg, mod_td, fn_td, sig=what)
         if not diffs:
             run.ok('TABLE.roundtrip', label, sample='%s: decode(encode(obj)) has the same class and attributes' % label)
         # decoding must not alter the dictionary it was given
